@@ -81,6 +81,18 @@ def _sets_const(prog, body, field, cval, memo):
     for w in q.stmt_writes(body, field):
         if w[0] == "assign" and q.const_val(w[4]) == cval:
             blocks.add(w[1])
+        elif w[0] == "mutref" and w[4] is not None:
+            # `mem::replace(&mut self.f, K)` / `mem::take(&mut self.f)` (K, resp. the default 0, is what the field holds afterwards)
+            cb, ct = w[4]
+            n_ = mir.callee_name(ct)
+            if n_.endswith("mem::replace") and len(ct["args"]) == 2:
+                v_ = body.rec_operand(ct["args"][1], cb, "T")
+                if v_[0] == "agg" and len(v_[3]) == 1:
+                    v_ = v_[3][0][1]
+                if q.const_val(v_) == cval:
+                    blocks.add(cb)
+            elif n_.endswith("mem::take") and cval == 0:
+                blocks.add(cb)
     for bi, t in body.calls():
         cb = prog.by_id.get(mir.callee_id(t))
         if cb is not None and cb.crate == "melstf":
